@@ -592,6 +592,10 @@ func newWalked(siz int) *Walked {
 	if max < siz {
 		siz = max
 	}
+	if siz < 0 {
+		// A negative Control.Limit just means no steps.
+		siz = 0
+	}
 	return &Walked{
 		Strides: make([]*Stride, 0, siz),
 	}
